@@ -364,4 +364,4 @@ def run(case, ctx):
 
 def stages(tier):
     return [{"name": "hist", "kind": "hyp", "strategy": strategy, "run": run,
-             "examples": {"quick": 3000, "thorough": 60000}, "shards": 16}]
+             "examples": {"quick": 3000, "thorough": 300000}, "shards": 16}]
